@@ -716,3 +716,14 @@ package keeper
 //@   ensures [only-unstaked-restake] result == nil && old(valHas[bytes(validatorNew.Address)]) && !(ctxAfterUpgrade(ctx) && old(valStatusG[bytes(validatorNew.Address)]) == 2) ==> old(valStatusG[bytes(validatorNew.Address)]) == 0
 //@   ensures [current-owner-signs] result == nil && old(valHas[bytes(validatorNew.Address)]) ==> unjailSigner(old(bytes(signerAddress)), old(bytes(validatorNew.Address)), old(valOutNil[bytes(validatorNew.Address)]), old(valOut[bytes(validatorNew.Address)]))
 //@   ensures [named-in-new-state-or-handover] result == nil ==> unjailSigner(old(bytes(signerAddress)), old(bytes(validatorNew.Address)), validatorNew.OutputAddress == nil, old(bytes(validatorNew.OutputAddress))) || (old(valHas[bytes(validatorNew.Address)]) && !old(valOutNil[bytes(validatorNew.Address)]) && addrEq(old(bytes(signerAddress)), old(valOut[bytes(validatorNew.Address)])) && validatorNew.OutputAddress != nil)
+
+// ---- C33: the candidates of a session are the nodes staked for the chain AT THE GIVEN HEIGHT -----
+// the in-memory cache of these lists is consulted and filled under the key of (this context's
+// height, chain) only - a list computed at one height never answers for another
+//@ func (Keeper).GetValidatorsByChain
+//@   props C33
+//@   modifies all
+//@   ensures [cache-consulted-per-height] vbcGetN == old(vbcGetN) + 1 && lastVbcGetKey == cacheKeyOf(ctxHeight(ctx), networkID)
+//@   ensures [cache-filled-per-height] vbcAddN != old(vbcAddN) ==> vbcAddN == old(vbcAddN) + 1 && lastVbcAddKey == cacheKeyOf(ctxHeight(ctx), networkID)
+//@   loop 0 invariant iterator != nil && 0 <= itPos[iterator] && itPos[iterator] <= itN[iterator]
+//@   loop 0 invariant vbcGetN == old(vbcGetN) + 1 && lastVbcGetKey == cacheKeyOf(ctxHeight(ctx), networkID) && vbcAddN == old(vbcAddN)
